@@ -247,6 +247,7 @@ def normalise_reason(text: str, module_names: list[str]) -> str:
 
     text = re.sub(r'"([^"\n]{1,80})"', quoted, text)
     text = re.sub(r"\b[A-Za-z_]\w*\x01\w*(\.\w+)*", "X", text)  # remaining generated identifiers
+    text = re.sub(r"; did you mean .*?\?", "", text)
     text = re.sub(r"runtime type .*$", "runtime type <T>", text)
     text = re.sub(r"stub parameter type .*?\. ", "stub parameter type <T>. ", text)
     text = text.replace("\x01", "N")
